@@ -71,7 +71,7 @@ def gen_ref_file(scratch, ref, pairs):
     return path
 
 
-DEFAULT_PARAMS = dict(scanN=3, scanMinN=0, scanLexN=6, scanPadN=1, scanPads=[0], scanTails=['\n'])
+DEFAULT_PARAMS = dict(scanN=3, scanMinN=0, scanLexN=6, scanPadN=1, scanPads=[0], scanTails=['\n'], c14N=3)
 
 
 def scan_files(sc, ref, pairs, **params):
@@ -80,7 +80,7 @@ def scan_files(sc, ref, pairs, **params):
     params = p
     reffile = gen_ref_file(sc, ref, pairs)
     par = gen_params(sc, 'zz_verif_params.go', **params)
-    return [os.path.join(HDIR, 'zz_verif_c05.go'), os.path.join(HDIR, 'zz_verif_scan.go'), reffile, par]
+    return [os.path.join(HDIR, 'zz_verif_c05.go'), os.path.join(HDIR, 'zz_verif_scan.go'), os.path.join(HDIR, 'zz_verif_c14.go'), reffile, par]
 
 
 def base_cfg(files, entry, tier, **kw):
